@@ -123,7 +123,9 @@ def run_history(args):
         if len(names) >= 2:
             sfilters.append(('alternation', f'^{names[0]}|^{names[-1]}'))
             sfilters.append(('prefix', '^' + names[1][:6]))
-        ffilters = [('none', None), ('a$', r'a$'), ('[ab]$', r'[ab]$'), ('no-match', r'nomatch$')]
+        # incl. patterns in which white space is significant (nothing here has a space in its path: they select nothing)
+        ffilters = [('none', None), ('a$', r'a$'), ('[ab]$', r'[ab]$'), ('no-match', r'nomatch$'), ('trailing-space', 'a$ '),
+                    ('space-only', ' '), ('leading-space', ' a$')]
         rs, rf = (sfilters, ffilters) if (len(states) < 3 or FULL[0]) else ([sfilters[0], sfilters[2], sfilters[-2], sfilters[-1]], ffilters[:2])
         for sname, sre in rs:
             for fname, fre in rf:
